@@ -61,7 +61,7 @@ func c02Opts() genOpts {
 func sharedNode(v any, memo map[string]dom.Node) dom.Node {
 	switch x := v.(type) {
 	case map[string]any:
-		key := fmt.Sprintf("%#v", v)
+		key := gNode(v)
 		if n, ok := memo[key]; ok && len(x) > 0 {
 			return n
 		}
@@ -72,7 +72,7 @@ func sharedNode(v any, memo map[string]dom.Node) dom.Node {
 		memo[key] = c
 		return c
 	case []any:
-		key := fmt.Sprintf("%#v", v)
+		key := gNode(v)
 		if n, ok := memo[key]; ok && len(x) > 0 {
 			return n
 		}
